@@ -217,7 +217,10 @@ def to_tk(circuit):
         elif isinstance(box, CRz):
             tk_circ.__getattribute__(box.name[:3])(2 * box.phase, *i_qubits)
         elif hasattr(tk_circ, box.name):
-            tk_circ.__getattribute__(box.name)(*i_qubits)
+            name = box.name
+            if box.is_dagger and name in ("S", "T"):
+                name += "dg"  # tket's names for the adjoints
+            tk_circ.__getattribute__(name)(*i_qubits)
         else:
             raise NotImplementedError
 
@@ -293,6 +296,8 @@ def from_tk(tk_circuit):
         for gate in GATES:
             if name == gate.name:
                 return gate
+            if name == gate.name + "dg" and gate.name in ("S", "T"):
+                return gate.dagger()
         raise NotImplementedError
 
     def make_units_adjacent(tk_gate):
